@@ -320,3 +320,6 @@ func TestC01Hist(t *testing.T) { pbt.Check(t, specHist) }
 func TestReplay(t *testing.T)  { pbt.Replay(t) }
 
 var _ = strings.Join
+
+// native fuzz target (engine E6, thorough tier): same generator, Run and oracle under coverage guidance
+func FuzzC01Hist(f *testing.F) { pbt.Fuzz(f, specHist) }
